@@ -128,6 +128,61 @@ func c09Exercise(b c09Blob, which int) (outcome string, escaped string, readsAft
 		} else {
 			chain("autometa")
 		}
+	case "icc-batch":
+		// Data = records of (4-byte big-endian length, profile bytes); eight goroutines read them at
+		// once (hostile profiles arrive on several connections at a time; whatever the parser keeps
+		// per process - interned signatures, pools - must survive that: a Go runtime fault such as
+		// "concurrent map writes" cannot be recovered and takes the process down)
+		var recs [][]byte
+		for d := b.Data; len(d) >= 4; {
+			n := int(binary.BigEndian.Uint32(d))
+			if n > len(d)-4 {
+				break
+			}
+			recs = append(recs, d[4:4+n])
+			d = d[4+n:]
+		}
+		var wg sync.WaitGroup
+		var mu sync.Mutex
+		counts := map[string]int{}
+		for g := 0; g < 8; g++ {
+			wg.Add(1)
+			go func(g int) {
+				defer wg.Done()
+				for i := g; i < len(recs); i += 8 {
+					p, err, pan := readProfile(bytes.NewReader(recs[i]))
+					out := "ReadProfile:" + normErr(err)
+					if pan != nil {
+						mu.Lock()
+						escaped = fmt.Sprintf("icc.ProfileReader.ReadProfile (one of eight concurrent readers): %v", pan)
+						mu.Unlock()
+						continue
+					}
+					if p != nil {
+						_, derr, dpan := description(p)
+						if dpan != nil {
+							mu.Lock()
+							escaped = fmt.Sprintf("icc.Profile.Description (one of eight concurrent readers): %v", dpan)
+							mu.Unlock()
+							continue
+						}
+						out += "|Description:" + normErr(derr)
+					}
+					mu.Lock()
+					counts[out]++
+					mu.Unlock()
+				}
+			}(g)
+		}
+		wg.Wait()
+		keys := make([]string, 0, len(counts))
+		for k := range counts {
+			keys = append(keys, k)
+		}
+		sort.Strings(keys)
+		for _, k := range keys {
+			parts = append(parts, fmt.Sprintf("%dx(%s)", counts[k], k))
+		}
 	case "icc":
 		p, err, pan := readProfile(bytes.NewReader(b.Data))
 		if pan != nil {
@@ -669,6 +724,31 @@ func c09Crafted(rng *core.RNG) []c09Blob {
 		sp.ICC = &imggen.PNGICC{Name: "b", RawStream: raw2, State: "damaged"}
 		b, _ = sp.Build()
 		add("load", "PNG", b, fmt.Sprintf("bad-deflate-body: iCCP stream of %d bytes with a zlib header and noise behind it", n+2))
+	}
+	// 4000 damaged profiles, each with a signature / tag type of its own, read by eight goroutines at once
+	{
+		var batch []byte
+		for i := 0; i < 4000; i++ {
+			h := imggen.MinimalHeader(i%2 == 0)
+			tagType := []byte{byte('a' + i%26), byte('A' + (i/26)%26), byte('0' + (i/676)%10), byte(i)}
+			el := append(append([]byte{}, tagType...), 0, 0, 0, 0, 0, 0, 0, 5, 'x', 'y', 'z', 'w', 0)
+			prof, _ := imggen.ICCSpec{Header: h, Tags: []imggen.ICCTag{{Sig: "desc", Data: el}, {Sig: string([]byte{byte(i), byte(i >> 8), 'q', 'z'}), Data: []byte{1, 2, 3, 4}}}}.Build()
+			if i%3 == 0 {
+				copy(prof[36:40], []byte{byte(i), byte(i >> 8), 0xA5, byte(i >> 4)}) // bad file signature, all different
+			}
+			var l [4]byte
+			binary.BigEndian.PutUint32(l[:], uint32(len(prof)))
+			batch = append(append(batch, l[:]...), prof...)
+		}
+		add("icc-batch", "ICC", batch, fmt.Sprintf("concurrent-damaged-profiles: 4000 profiles with distinct bad signatures and tag types, eight readers at once (%d bytes)", len(batch)))
+	}
+	// description elements of other types than the two a description may have, cut to 4 .. 12 bytes
+	for _, typ := range []string{"text", "desc", "mluc", "XYZ ", "sig ", "data", "utf8", "curv", "\x00\x00\x00\x00"} {
+		for n := 4; n <= 12; n++ {
+			el := append([]byte(typ), make([]byte, 8)...)[:n]
+			prof, _ := imggen.ICCSpec{Header: imggen.MinimalHeader(false), Tags: []imggen.ICCTag{{Sig: "desc", Data: el}, {Sig: "cprt", Data: []byte{1, 2, 3, 4}}}}.Build()
+			add("icc", "ICC", prof, fmt.Sprintf("typed-description-stub: 'desc' tag of type %q cut to %d bytes", typ, n))
+		}
 	}
 	// deflate bombs: highly compressible profiles
 	for _, n := range []int{1 << 20, 8 << 20} {
